@@ -5,6 +5,9 @@ b  registry coherence: result name == dst, inverse partners for two-way edges, s
 c  linear changes: complexification block unitary+symplectic, M_inv = M^H; polynomial substitution and coordinate
    maps use the same matrix in the matching direction; C / C_inv accessor order
 d  point-wise maps synodic <-> local are exact inverses (collinear, triangular)
+
+a (added)  only _PipelineService.register_conversion writes the conversion table (who-may-write); memoised conversions are keyed by form and context
+c (added)  _substitute_real/_complex return the substituted polynomial unchanged (generic complex coefficients)
 """
 from __future__ import annotations
 
